@@ -416,6 +416,11 @@ func checkSerialize(c *Ctx, d Driver, tree []*ssa.Function) {
 						}
 					}
 				}
+				for i := 0; i < len(refs); i++ {
+					if fa, ok := refs[i].(*ssa.FieldAddr); ok && fa.X != ssa.Value(al) {
+						refs = append(refs, *fa.Referrers()...)
+					}
+				}
 				for _, r := range refs {
 					cl, ok := r.(*ssa.Call)
 					if !ok || cl.Common().StaticCallee() == nil || cl.Common().StaticCallee().Name() != "SetNetworkLayerForChecksum" {
